@@ -271,6 +271,99 @@ def ob_csr_width():
     return Verdict(DISCHARGED, backend="instrumented run of the extracted function (dtype contract)", sub=4)
 
 
+class _StubGroup:
+    """an element group reduced to what the scatter kernel may read: its dof tables (by the contract of _Get_assembly_e / Get_rows_e / Get_columns_e,
+    proved above) and a few descriptive attributes."""
+
+    def __init__(self, name, dim, connect):
+        self.name, self.dim, self.connect = name, dim, np.array(connect)
+        self.Ne, self.nPe = self.connect.shape
+        self.order, self.inDim = 1, 3
+        self.elemType = name
+
+    def Get_assembly_e(self, dof_n):
+        return (self.connect[:, :, None] * dof_n + np.arange(dof_n)[None, None, :]).reshape(self.Ne, -1)
+
+    _Get_assembly_e = lambda self, connect, dof_n: (np.asarray(connect)[:, :, None] * dof_n + np.arange(dof_n)[None, None, :]).reshape(len(connect), -1)
+
+    def Get_rows_e(self, dof_n):
+        a = self.Get_assembly_e(dof_n)
+        return np.repeat(a, a.shape[1], axis=1)
+
+    def Get_columns_e(self, dof_n):
+        a = self.Get_assembly_e(dof_n)
+        return np.tile(a, (1, a.shape[1]))
+
+    def __repr__(self):
+        return self.name
+
+
+def ob_csr_kernel():
+    """__Assemble_csr + __Get_csr_map (with the real memo decorator) from the AST on stub groups: for every listing order of up to three groups of
+    dimensions 2, 2, 1 (one of them possibly absent from the slot), dof_n in {1, 2}, matrices and vectors, and for the SAME receiver going through all of
+    these calls one after the other (so that every cached map is met again), the entry values being distinct powers of two: each stored coefficient is
+    exactly the sum of the entries whose (row, col) it is -- nothing dropped, duplicated or misplaced."""
+    from EasyFEA.Utilities._cache import cache_computed_values
+    g = sx.module_globals("EasyFEA.Simulations._simu")
+    f_asm = extract.compile_fn(extract.get(SP, "_Simu.__Assemble_csr"), g, exact=False)
+    f_map = cache_computed_values(extract.compile_fn(extract.get(SP, "_Simu.__Get_csr_map"), g, exact=False))
+    tri = _StubGroup("TRI", 2, [[0, 1, 2], [1, 3, 2]])
+    quad = _StubGroup("QUAD", 2, [[1, 4, 5, 3]])
+    seg = _StubGroup("SEG", 1, [[0, 1], [1, 4], [4, 5]])
+    Nn = 6
+
+    class Me:
+        pass
+    me = Me()
+    me._Simu__Get_csr_map = lambda *a, **k: f_map(me, *a, **k)
+    n = 0
+    allg = [tri, quad, seg]
+    for rnd_ in range(2):                       # second pass: every map comes from the cache
+        for dof_n in (1, 2):
+            Ndof = Nn * dof_n
+            for isMatrix in (True, False):
+                for order in itertools.permutations(allg):
+                    for absent in (None, tri, quad, seg):
+                        k = 0
+                        data, ref = {}, np.zeros((Ndof, Ndof if isMatrix else 1))
+                        for grp in order:
+                            if grp is absent:
+                                data[grp] = None
+                                continue
+                            a = grp.Get_assembly_e(dof_n)
+                            m = a.shape[1]
+                            X = np.zeros((grp.Ne, m, m) if isMatrix else (grp.Ne, m, 1))
+                            for e in range(grp.Ne):
+                                for i in range(m):
+                                    for j in range(m if isMatrix else 1):
+                                        v = float(2 ** (k % 50)) + (k // 50) * 2.0 ** -3     # exact in binary floating point, sums stay exact
+                                        k += 1
+                                        X[e, i, j] = v
+                                        ref[a[e, i], a[e, j] if isMatrix else 0] += v
+                            data[grp] = X
+                        got = f_asm(me, data, dof_n, Ndof, isMatrix)
+                        got = np.asarray(got.todense())
+                        n += 1
+                        if got.shape != ref.shape or not np.array_equal(got, ref):
+                            bad = np.argwhere(got != ref)[:3].tolist() if got.shape == ref.shape else "shape"
+                            raise Refuted(f"scatter kernel (pass {rnd_}, dof_n={dof_n}, isMatrix={isMatrix}, groups listed {list(order)}, absent {absent}): assembled values differ from the "
+                                          f"sum of the entries of each (row, col) at {bad}", cex=dict(order=[str(x) for x in order], absent=str(absent), dof_n=dof_n, isMatrix=isMatrix, second_pass=bool(rnd_)),
+                                          signature="csr_kernel", replay=_replay_kernel())
+    return Verdict(DISCHARGED, backend="extracted kernel on stub groups, exact binary values", sub=n)
+
+
+def _replay_kernel():
+    try:
+        for cs in [("boundary", "segfirst", 2, False, False), ("boundary", "interleaved", 3, False, False), ("mixed", "-", 2, False, False)] + [("boundary", f"order{k}", 1, False, False) for k in range(6)]:
+            try:
+                ob_scatter(cs, 0)
+            except Refuted as r:
+                return dict(confirmed=True, native_case=list(map(str, cs)), detail=str(r)[:300])
+        return dict(confirmed=False, note="the native assemblies of the real Assembly() agree with the dense scatter-add")
+    except Exception as e:
+        return dict(confirmed=False, error=repr(e))
+
+
 # ------------------------------------------------------------------ bounded run-time contracts on the real assembly
 
 def _make_simu(mesh, dof_n, local):
@@ -415,6 +508,9 @@ def build(tier, seed):
     obs.append(Ob("C03.lemma.perm", ob_lemma_perm, (), "L", clause="dof renumbering induced by a node permutation is injective"))
     obs.append(Ob("C03.csr_map.width", ob_csr_width, (), "P", (f"{SP}::_Simu.__Get_csr_map",),
                   clause="row-major slot key and slot table are 64-bit integers (no wrap-around for any Ndof < 2^31)"))
+    obs.append(Ob("C03.csr_kernel", ob_csr_kernel, (), "B", (f"{SP}::_Simu.__Assemble_csr", f"{SP}::_Simu.__Get_csr_map"),
+                  bound="three stub groups (dimensions 2, 2, 1; 6 nodes), every listing order, one group possibly absent, dof_n 1-2, matrix and vector, two passes over one receiver (cached maps)",
+                  clause="every stored coefficient == sum of the entries whose (row, col) it is; entries are distinct powers of two, so nothing is dropped, duplicated or misplaced", timeout=600))
     obs.append(Ob("C03.slots", ob_slots, (), "P", (f"{SP}::_Simu.Assembly",), clause="K,C,M,F assembled from tuple positions 0..3, F as a vector"))
     cases = [("patch", "TRI3", 2, False, False), ("patch", "QUAD8", 1, False, True), ("patch", "TETRA4", 3, True, True),
              ("mixed", "-", 2, False, False), ("mixed", "-", 1, True, False),
@@ -422,8 +518,8 @@ def build(tier, seed):
     cases += [("boundary", f"order{k}", 1 + k % 2, False, False) for k in range(6)]
     if tier == "thorough":
         cases += [("patch", et, dn, cx, True) for et in ("SEG3", "TRI6", "HEXA8", "PRISM6", "TETRA10") for dn in (1, 3) for cx in (False, True)]
-    for cs in cases:
-        obs.append(Ob(f"C03.scatter.{cs[0]}.{cs[1]}.dof{cs[2]}{'.complex' if cs[3] else ''}{'.perm' if cs[4] else ''}", ob_scatter, (cs, seed), "X",
+    for cs, sd in [(c_, s_) for c_ in cases for s_ in (range(4) if tier == "thorough" else range(1))]:
+        obs.append(Ob(f"C03.scatter.{cs[0]}.{cs[1]}.dof{cs[2]}{'.complex' if cs[3] else ''}{'.perm' if cs[4] else ''}" + (f".s{sd}" if sd else ""), ob_scatter, (cs, seed + sd), "X",
                       (f"{SP}::_Simu.Assembly", f"{SP}::_Simu.__Assemble_csr", f"{SP}::_Simu.__Get_csr_map"),
                       bound="hand-built 2-3 element meshes, 3 successive assemblies, integer-valued element data",
                       clause="every global matrix/vector equals the dense loop scatter-add exactly", timeout=120))
